@@ -209,6 +209,14 @@ def hostile_lines():
         add("adv-2-brothers-%s" % label, adv([b1.hex()], [[b1.hex(), raw.hex()]]))
         add("upd-block-%s" % label, upd([raw.hex()]))
         add("upd-2nd-block-%s" % label, upd([b1.hex(), raw.hex()]))
+    # well-formed requests whose single line is far beyond any buffer size one might pick
+    for target in (1 << 20, 1 << 22, 1 << 24):
+        f2 = list(fields)
+        f2[12] = b"\x01" * 60000
+        big = R.encode(f2).hex()
+        n = target // len(big) + 2
+        add("adv-line-%dMiB" % (target >> 20), adv([big] * n))
+        add("upd-line-%dMiB" % (target >> 20), upd([big] * n))
     for nb in (0, 1, 2, 10, 11, 12, 300):
         add("adv-%d-brothers" % nb, adv([b1.hex()], [[b1.hex()] * nb]))
     add("adv-300-blocks", adv([b1.hex()] * 300))
@@ -330,6 +338,25 @@ class C03(Check):
         stats.sample({"label": label, "line": (line[:120] + b"...").decode("latin-1"), "v1": v1,
                       "pending": pending, "reply": o.raw[:80].decode("latin-1")}, cap=4)
         self.judge(o, label, line, v1, pending, vs, stats)
+        # the line layer only transports: what the client gets for a line that is a JSON object is
+        # what the protocol object answers to that object
+        if o.exc is None and isinstance(o.reply, dict):
+            try:
+                doc = json.loads(line.decode("utf-8"))
+            except Exception:   # noqa
+                doc = None
+            if isinstance(doc, dict):
+                dev2, w2, proto2 = self.fresh(v1, pending)
+                try:
+                    reply2, exc2 = harness.handle_request(proto2, doc)
+                except Exception:   # noqa
+                    reply2, exc2 = None, "raised"
+                if exc2 is None and isinstance(reply2, dict) and reply2 != o.reply:
+                    vs.append(Violation("C03", "C03:line-layer-changes-the-answer:%s" % label.split("-")[0],
+                                        {"kind": "one", "label": label, "line": line.hex() if len(line) < 4000 else None,
+                                         "v1": v1, "pending": pending, "history": None}, None,
+                                        {"over_the_line": o.reply, "line_bytes": len(line)},
+                                        {"protocol_object_answers": reply2}, "transport"))
         return o
 
     def run_case(self, case, stats):
